@@ -191,6 +191,21 @@ def only_polled_parameters(ctx):
                            for n2 in ast.walk(x.value) if isinstance(n2, ast.Name)}
     srcs = [x for x in body_walk(pt.node) if isinstance(x, ast.Call) and call_attr(x) in ('extend', 'append') and src(x.func.value) in lists]
     ok = bool(srcs) and all(x.args and src(x.args[0]).endswith('.polled_parameters') for x in srcs)
+    if not srcs:
+        # the refill may be a generator function: `to_poll = list(_due_slow_polls(modules, now))` with `yield from pinfo.polled_parameters`
+        gens = []
+        for x in body_walk(pt.node):
+            if isinstance(x, ast.Assign) and any(src(t) in lists for t in x.targets):
+                for c in [y for y in ast.walk(x.value) if isinstance(y, ast.Call) and isinstance(y.func, ast.Name)]:
+                    g = m.functions.get(f'{pt.module.name}.{c.func.id}')
+                    if g is not None and g.cls is None:
+                        ys = [y for y in ast.walk(g.node) if isinstance(y, (ast.Yield, ast.YieldFrom))]
+                        if ys:
+                            gens.append((g, ys))
+        if gens:
+            ok = all(isinstance(y, ast.YieldFrom) and src(y.value).endswith('.polled_parameters') for g, ys in gens for y in ys)
+            for g, ys in gens:
+                ctx.analysed(g)
     ctx.check(ok, f'{pt.qualname}:slow polls drawn from polled_parameters', pt.node, 'to_poll.extend(pinfo.polled_parameters)',
               'the slow-poll list is filled from another source than polled_parameters', pt)
     first = [n for n in body_walk(pt.node) if isinstance(n, ast.For) and src(n.iter).endswith('polled_parameters')]
